@@ -73,6 +73,13 @@ Definition req_srt_write (arg : sx) : sx :=
   | None => bad
   end.
 
+(* 805: the WebVTT document the writer model prints for cues with text lines *)
+Definition req_vtt_write (arg : sx) : sx :=
+  match sx_listof sx_tcue arg with
+  | Some cs => SS (vtt_write_doc cs)
+  | None => bad
+  end.
+
 Definition dispatch (code : Z) (arg : sx) : option sx :=
   match code with
   | 800 => Some (req_trace arg)
@@ -80,5 +87,6 @@ Definition dispatch (code : Z) (arg : sx) : option sx :=
   | 802 => Some (req_ok arg)
   | 803 => Some (req_mdvd_write arg)
   | 804 => Some (req_srt_write arg)
+  | 805 => Some (req_vtt_write arg)
   | _ => None
   end.
